@@ -38,7 +38,7 @@ var srvCfgs = []srvCfg{
 	{"rev1", imap.CapSet{imap.CapIMAP4rev1: {}}},
 	{"rev1+rev2", imap.CapSet{imap.CapIMAP4rev1: {}, imap.CapIMAP4rev2: {}}},
 	{"rev1+literal+", imap.CapSet{imap.CapIMAP4rev1: {}, imap.CapLiteralPlus: {}}},
-	{"rev1+ext", imap.CapSet{imap.CapIMAP4rev1: {}, imap.CapMove: {}, imap.CapUIDPlus: {}, imap.CapESearch: {}, imap.CapSearchRes: {}, imap.CapListExtended: {}, imap.CapListStatus: {}, imap.CapNamespace: {}, imap.CapStatusSize: {}, imap.CapCreateSpecialUse: {}}},
+	{"rev1+ext", imap.CapSet{imap.CapIMAP4rev1: {}, imap.CapMove: {}, imap.CapUIDPlus: {}, imap.CapESearch: {}, imap.CapSearchRes: {}, imap.CapListExtended: {}, imap.CapListStatus: {}, imap.CapNamespace: {}, imap.CapStatusSize: {}, imap.CapCreateSpecialUse: {}, imap.CapUnauthenticate: {}}},
 }
 
 type env struct {
@@ -477,7 +477,34 @@ func strDesc(s string) string {
 func (e *env) oneOp() {
 	rng := e.rng
 	c := e.c
-	switch rng.Intn(20) {
+	switch rng.Intn(21) {
+	case 20: // IDLE (and, where the server offers it, UNAUTHENTICATE followed by a fresh login)
+		e.do("IDLE", "Idle", false, func() error {
+			idle, err := c.Idle()
+			if err != nil {
+				return err
+			}
+			if err := idle.Close(); err != nil {
+				return err
+			}
+			return idle.Wait()
+		}, func(*kit.Call) string { return "" })
+		if e.cfg.caps.Has(imap.CapUnauthenticate) && rng.Intn(3) == 0 {
+			e.do("UNAUTHENTICATE", "Unauthenticate", false, func() error { return c.Unauthenticate().Wait() }, func(*kit.Call) string { return "" })
+			u, uc := e.str()
+			pw, pc := e.str()
+			if len(u) > 4096 || len(pw) > 4096 {
+				u, uc, pw, pc = "user", "ascii", "pass", "ascii"
+			}
+			e.do("LOGIN (after UNAUTHENTICATE) <"+uc+"> <"+pc+">", "Login", false, func() error { return c.Login(u, pw).Wait() }, func(k *kit.Call) string {
+				if k.Username != u || k.Password != pw {
+					return fmt.Sprintf("credentials (%s, %s) delivered as (%s, %s)", strDesc(u), strDesc(pw), strDesc(k.Username), strDesc(k.Password))
+				}
+				return ""
+			})
+			e.ro = false
+			e.do("SELECT (re-select)", "Select", false, func() error { _, err := c.Select("INBOX", nil).Wait(); return err }, func(*kit.Call) string { return "" })
+		}
 	case 0: // CREATE with special-use
 		name, mc := e.mbox()
 		var su []imap.MailboxAttr
@@ -1062,7 +1089,7 @@ func main() {
 	hx.Main(hx.Spec{
 		ID:    "C02",
 		Level: "exploration",
-		Rule:  "sessions of 45..60 client API calls over every command the server implements (LOGIN / AUTHENTICATE PLAIN, CREATE with special-use, DELETE, RENAME, SUBSCRIBE, UNSUBSCRIBE, LIST with select/return options and STATUS items, STATUS, APPEND with flags/date/payload sizes around 4096, SELECT/EXAMINE, UNSELECT, CLOSE, EXPUNGE, UID EXPUNGE, SEARCH/UID SEARCH with criteria trees of depth <= 2 over every field and return options incl. SAVE, FETCH/UID FETCH with all attribute subsets and body/binary sections with parts, specifiers, header lists and partials, STORE, COPY, MOVE, NAMESPACE) x string arguments from 18 classes and mailbox names from 9 classes x servers {IMAP4rev1, rev1+rev2, rev1+LITERAL+, rev1+extensions} x {nothing enabled, UTF8=ACCEPT, IMAP4rev2}; distinct = distinct (server configuration, enabled extension, command bytes on the wire without the tag)",
+		Rule:  "sessions of 45..60 client API calls over every command the server implements (LOGIN / AUTHENTICATE PLAIN, CREATE with special-use, DELETE, RENAME, SUBSCRIBE, UNSUBSCRIBE, LIST with select/return options and STATUS items, STATUS, APPEND with flags/date/payload sizes around 4096, SELECT/EXAMINE, UNSELECT, CLOSE, EXPUNGE, UID EXPUNGE, SEARCH/UID SEARCH with criteria trees of depth <= 2 over every field and return options incl. SAVE, FETCH/UID FETCH with all attribute subsets and body/binary sections with parts, specifiers, header lists and partials, STORE, COPY, MOVE, NAMESPACE, IDLE, UNAUTHENTICATE + LOGIN) x string arguments from 18 classes and mailbox names from 9 classes x servers {IMAP4rev1, rev1+rev2, rev1+LITERAL+, rev1+extensions} x {nothing enabled, UTF8=ACCEPT, IMAP4rev2}; distinct = distinct (server configuration, enabled extension, command bytes on the wire without the tag)",
 		Assumptions: []string{
 			"normalisation: INBOX case-fold; flags and header field names compared case-insensitively; search dates compared as calendar dates in the time's own zone; since+before 24h apart is equivalent to ON; Larger/Smaller zero = unset; a search without return option is delivered with ReturnAll (documented server default); UID commands imply the UID fetch item",
 			"an argument longer than 4096 bytes that the server has to buffer may be refused (checked by C06); if it is accepted it must be intact",
